@@ -124,6 +124,19 @@ def check(case):
                     r2, sc2 = float_ref(env, recipe, q, pv)
                     if sc2.ok and r2 != ref:
                         depends = True
+        # a point given as integers (Python int / NumPy integer) denotes the same real numbers
+        ipt = {n: (int(round(v)) if int(round(v)) != 0 else 1) for n, v in case["points"][0].items()}
+        ref_i, sc_i = float_ref(env, recipe, {n: float(v) for n, v in ipt.items()}, pv)
+        if sc_i.ok and sc_i.maxabs <= 1e6:
+            given = {n: (np.int64(v) if k_ % 2 else v) for k_, (n, v) in enumerate(ipt.items())}
+            try:
+                got_i = to_float(e.evaluate(dict(given)))
+            except Exception as ex:
+                return Result.violation(f"evaluate-raises-at-integer-point:{exc_label(ex)}", f"{show(recipe)} at {ipt}: {ex!r}", classes)
+            classes.append("integer-point")
+            if not close(got_i, ref_i, sc_i.maxabs):
+                return Result.violation("value-mismatch:evaluate-at-integer-point",
+                                        f"{show(recipe)} at the integer point {ipt}: evaluate={got_i!r} reference={ref_i!r}", classes)
         if judged == 0:
             return Result.discard("no-in-domain-point", classes)
         # the same expression object against another variable list (a cache must not hand back the first callable)
